@@ -820,7 +820,9 @@ Theorem lex_emit_core2 sp d : core2_doc d = true -> lex_safe2_doc d = true ->
     Forall2 tmatch ts (doc2_sh ml idnum_digits d) /\ tk tnl = NEWLINE /\ tk teof = EOF.
 Proof.
   intros Hc Hs.
-  rewrite (tokenize_tok_text cls false _ (emit_text_ok sp d Hc Hs)).
+  assert (Hfr : dfront d = None).
+  { revert Hc. unfold core2_doc. destruct (dfront d); [discriminate|reflexivity]. }
+  rewrite (tokenize_tok_text cls false _ (emit_text_ok sp d Hc Hs) (emit_nonblank_head sp d Hfr)).
   set (st0 := mkLS (emit sp d) None 0 1 1 [] [] [] []).
   destruct (lex_doc2 sp d Hc Hs st0 eq_refl eq_refl eq_refl) as (st' & (Hst & (tsall & Ht & HF) & Hr & Hb & _) & Hin).
   rewrite (run_steps_finish cls st0 st' _ Hst Hin) by (cbn [ls_in st0]; lia).
